@@ -16,6 +16,8 @@ mod xform;
 mod proj;
 mod lerp;
 mod bezier;
+mod term;
+mod vecs;
 
 fn main() {
     let args: Vec<String> = std::env::args().collect();
@@ -38,6 +40,9 @@ fn main() {
         ("drive", "bezier") => bezier::drive_bezier(rest),
         ("drive", "bezext") => bezier::drive_bezext(rest),
         ("drive", "bezlen") => bezier::drive_bezlen(rest),
+        ("drive", "vecops") => vecs::drive_vecops(rest),
+        ("drive", "vecfold") => vecs::drive_vecfold(rest),
+        ("drive", "vecreal") => vecs::drive_vecreal(rest),
         ("drive", "proj") => proj::drive_proj(rest),
         ("drive", "viewport") => proj::drive_viewport(rest),
         (a, b) => { eprintln!("unknown command {} {}", a, b); std::process::exit(2); }
